@@ -73,7 +73,7 @@ func zzC07Env(log *zzTickLog) StringDict {
 //verif:unwind 400
 //verif:decisions 2000
 func zzH07_limit() {
-	nprog := zzParam("programs", 3, 4)
+	nprog := zzParam("programs", 2, 4)
 	pi := zzChoice("prog", nprog)
 	src := zzC07Progs[pi]
 	// reference run without limit (concrete), bounded for the infinite program by a concrete limit
@@ -167,7 +167,14 @@ tick()
 	env["act"] = NewBuiltin("act", func(thread *Thread, b *Builtin, args Tuple, kwargs []Tuple) (Value, error) {
 		k := acts
 		acts++
-		switch zzChoice("act"+string(rune('0'+k)), 4) {
+		switch zzChoice("act"+string(rune('0'+k)), 5) {
+		case 4: // two cancellations in a row (e.g. from two goroutines): the first reason wins
+			thread.Cancel("a")
+			thread.Cancel("b")
+			if pending == "" {
+				pending = "a"
+				ticksWhenCancelled = len(log.steps)
+			}
 		case 1:
 			thread.Cancel("a")
 			if pending == "" {
